@@ -996,7 +996,43 @@ ensures
     except (KeyError, ValueError):
         pif_rw = [('STUB-nested-fn', '\n    fn parse_one_included<NOT-FOUND', '')]
     _sfg = U.file(SF)
-    _sfg.guard('have_syntax_errors', None, block=r'pub trait SourceTrait\b', why='SourceTrait::have_syntax_errors (C11 gate of analyze_source) is a trait default method that recurses through its own impl: Verus rejects the shape; the analyser is proved against its specification')
+    # D40: the default method SourceTrait::have_syntax_errors recurses through `impl SourceTrait for SourceFile`, a shape Verus rejects.  Its
+    # body is copied from /repo on every run into the free function oq3_have_syntax_errors (`self` -> the parameter `oq3_self: &SourceFile`,
+    # the recursive method call -> a call of that function, `.iter().any(|x| B)` -> an index loop that stops at the first hit, D3 for
+    # `is_some_and`) and verified against has_errs: "this file or any file it includes, directly or not, has a syntax diagnostic".
+    import os as _os4
+    from vlib.unit import REPO as _REPO4
+    from vlib.closures import desugar_iter_any as _any, desugar_closures as _d3, NoRule as _NoRule
+    _sft = open(_os4.path.join(_REPO4, SF)).read()
+    _mh = re.search(r"pub trait SourceTrait \{.*?\n    fn have_syntax_errors\(&self\) -> bool \{\n(.*?)\n    \}\n", _sft, re.S)
+    U.hse_ok = False
+    if _mh:
+        try:
+            _b = re.sub(r'(?m)^\s*//[^\n]*\n', '', _mh.group(1))
+            _b = re.sub(r'\bself\b', 'oq3_self', _b)
+            _b = re.sub(r'\b(\w+)\s*\.\s*have_syntax_errors\(\)', r'oq3_have_syntax_errors(\1)', _b)
+            _b, _n40 = _any(_b, inv='''        invariant 0 <= oq3_i <= oq3_s@.len(), oq3_s@ == oq3_self.sp_included(),
+            oq3_found == (exists|j: int| 0 <= j < oq3_i && source::has_errs(#[trigger] oq3_s@[j])),      //@C11:every-included-file-is-asked
+        decreases oq3_s@.len() - oq3_i,''', ghost='broadcast use source::axiom_include_depth;')
+            _b, _l3 = _d3(_b)
+            U.raw('''/// SourceTrait::have_syntax_errors (default method), for the implementor SourceFile: body copied from /repo on this run (D40)
+fn oq3_have_syntax_errors(oq3_self: &source::SourceFile) -> (r: bool)
+    ensures r == source::has_errs(*oq3_self),      //@C11:errors-anywhere-in-the-include-tree-gate-analysis
+    decreases oq3_self.sp_depth(),
+{
+    broadcast use source::axiom_include_depth;
+    let oq3_r: bool = {
+''' + _b.rstrip() + '''
+    };
+    oq3_r
+}
+''', note='D40: SourceTrait::have_syntax_errors copied into a free function over &SourceFile')
+            U.hse_ok = True
+            U.build_log = getattr(U, 'build_log', []) + [('D40', 'SourceTrait::have_syntax_errors: default-method body -> oq3_have_syntax_errors(&SourceFile) (self -> parameter, recursive method call -> function call, .iter().any -> index loop, D3 is_some_and)')]
+        except _NoRule:
+            pass
+    if not U.hse_ok:
+      _sfg.guard('have_syntax_errors', None, block=r'pub trait SourceTrait\b', why='SourceTrait::have_syntax_errors (C11 gate of analyze_source) is a trait default method that recurses through its own impl: Verus rejects the shape; the analyser is proved against its specification')
     _sfg.guard('new', None, impl='SourceFile', why='SourceFile::new stores the parsed source and the included list: part of what the assumed precondition `analyzable` rests on')
     _sfg.guard('parse_source_and_includes', None, why='parses a text and collects its included files: part of what `analyzable` rests on')
     # the rest of source_file.rs and of syntax_to_semantics.rs (entry points parse_source_*, the accessors of ParseResult): generic
@@ -1038,5 +1074,5 @@ ensures
                      'std: String::as_ref keeps the characters; Result::clone clones the payload of the same variant; derive(Clone/PartialEq/Debug) structural']
     U.not_verified = ['syntax_to_semantics.rs: ' + ', '.join(sorted(S2S_UNVERIFIED)) + ', syntax_to_semantic, analyze_source, parse_* (generic SourceTrait plumbing)']
     for _fc in U.sema_pin_rest:
-        _fc.guard_rest('generic plumbing around analyze_source / parse_included_files, read by no contract of unit SEMA: text pinned')
+        _fc.guard_rest('generic plumbing around analyze_source / parse_included_files, read by no contract of unit SEMA: text pinned', skip=((('SourceTrait', 'have_syntax_errors'),) if U.hse_ok else ()))
     return U
